@@ -690,6 +690,7 @@ func main() {
 	base := kit.TempDir("c19")
 	defer os.RemoveAll(base)
 	seeds := helloPart(rep, repo)
+	overlapPhase(rep, seeds)
 	segmentation(rep, seeds)
 	largeHellos(rep, seeds)
 	otherParsers(rep, base)
